@@ -20,7 +20,8 @@ RULE = ("one case = one classifier fitted once on a generated tiny problem (8-14
         "whose estimators list contains a 'drop' entry, an entry without columns, an unused column with "
         "remainder='drop', or a remainder estimator), "
         "TimeSeriesForestClassifier, RandomIntervalSpectralForest, SupervisedTimeSeriesForest, "
-        "TimeSeriesForestRegressor; time series forest classifier / regressor on data whose level is large "
+        "TimeSeriesForestRegressor; every runnable classifier on training panels of identical and "
+        "near-identical series with conflicting labels (no unanimous member); time series forest classifier / regressor on data whose level is large "
         "relative to its spread (1e4..1e9), with tiny spreads, constant series or mixed levels, every "
         "feature of every tree compared with the two-pass mean / std / slope; refit histories (the same object fitted on problem A, then on problem B "
         "with another label set / type / number of classes; clauses after the last fit) for every one of "
@@ -259,6 +260,26 @@ def gen_cases(rng, tier):
         if name == "tsfreg":
             c["kind"] = "reg"
         cases.append(c)
+    # duplicate / near-duplicate series with conflicting labels, for every runnable classifier: no member
+    # can be unanimous on them (impure tree leaves, tied 1-NN distances), so predict must really be
+    # tied to predict_proba (seed C17-g: the forest's predict counts one vote per tree)
+    for i in range(40 if tier == "quick" else 200):
+        name = "tsf" if i % 2 == 0 else CLFS[(i // 2) % len(CLFS)]
+        forest = name in ("tsf", "rise", "stsf")
+        k = rng.choice([2, 2, 3, 4])
+        m = rng.randint(18, 24) if forest else rng.randint(BOSS_MIN_SERIES + 2, 24) if name in ("boss", "colens") \
+            else rng.randint(12, 16)
+        groups = _dup_groups(rng, k, m, big=forest or name == "muse")
+        c = {"kind": "clf", "clf": name, "seed": rng.randint(0, 10 ** 6), "k": k,
+             "labelset": rng.choice(sorted(LABELSETS)),
+             "sizes": [sum(g["counts"][cl] for g in groups) for cl in range(k)],
+             "n_test": len(groups) + rng.choice([0, 1]), "m": m, "noise": rng.choice([0.3, 1.0]),
+             "rs": rng.choice([0, 1, 7, 42, 123]), "ycont": rng.choice(["array", "series"]),
+             "unseen_test_label": False,
+             "dup": {"groups": groups, "jitter": rng.choice([0.0, 0.0, 1e-9])}}
+        if name == "colens":
+            c["members"] = rng.choice([["iboss", "tsf"], ["tsf", "iboss", "cboss"], ["rise", "tsf", "iboss"]])
+        cases.append(c)
     # refit histories: the SAME estimator object is fitted on problem A and then on problem B
     # (another label set, label type and / or number of classes); every clause is checked after the
     # LAST fit - nothing of the first problem (classes, lookups, members) may survive (seed C17-e)
@@ -386,12 +407,82 @@ def _problem(case, ncols=1):
 
     def panel(cls):
         return pd.DataFrame({"dim_%d" % j: [pd.Series(scaled(series(c))) for c in cls] for j in range(ncols)})
+    if case.get("dup"):
+        return _dup_problem(case, ncols, series, labels)
     Xtr, Xte = panel(cls_train), panel(cls_test)
     ytr = [labels[c] for c in cls_train]
     yte = [labels[c] for c in cls_test]
     if case.get("unseen_test_label"):
         yte[0] = "never" if isinstance(labels[0], str) else 999999
     return Xtr, ytr, Xte, yte
+
+
+def _dup_problem(case, ncols, series, labels):
+    """data dimension duplicates with conflicting labels: the training panel consists of GROUPS of
+    identical series (optionally with a jitter far below float32 resolution); a group is a class
+    prototype, possibly changed on its last `tail` points only (a near-duplicate of another group,
+    indistinguishable on every interval that ends before the tail), and carries `counts[c]` copies
+    labelled with class c - so members cannot have pure leaves / unanimous neighbours.  The test
+    instances are the group series themselves."""
+    import numpy as np
+    import pandas as pd
+    dp, m = case["dup"], case["m"]
+    r3 = np.random.RandomState(case["seed"] + 11)
+    cols = []
+    for _ in range(ncols):
+        protos = [series(c) for c in range(case["k"])]
+        gs = []
+        for g in dp["groups"]:
+            v = protos[g["base"]].copy()
+            if g["tail"]:
+                v[m - g["tail"]:] += g["shift"]
+            gs.append(v)
+        cols.append(gs)
+    train = [(gi, c) for gi, g in enumerate(dp["groups"]) for c, cnt in enumerate(g["counts"]) for _ in range(cnt)]
+    train = [train[i] for i in r3.permutation(len(train))]
+    test = [i % len(dp["groups"]) for i in range(case["n_test"])]
+
+    def inst(j, gi):
+        v = cols[j][gi].copy()
+        if dp.get("jitter"):
+            v = v + dp["jitter"] * r3.normal(size=m)
+        return pd.Series(v)
+
+    def panel(gis):
+        return pd.DataFrame({"dim_%d" % j: [inst(j, gi) for gi in gis] for j in range(ncols)})
+    Xtr, Xte = panel([gi for gi, _ in train]), panel(test)
+    ytr = [labels[c] for _, c in train]
+    yte = [labels[max(range(case["k"]), key=lambda c: dp["groups"][gi]["counts"][c])] for gi in test]
+    return Xtr, ytr, Xte, yte
+
+
+def _dup_groups(rng, k, m, big):
+    """groups for _dup_problem: for some prototypes p a group of identical series with conflicting
+    labels (class p vs another class at various ratios, exact ties included) and a near-duplicate of
+    it (different on the last `tail` points only) that belongs to the other class; plain groups so
+    that every class occurs at least twice"""
+    mixes = [(11, 9), (6, 4), (3, 2), (5, 5), (7, 3), (4, 3), (9, 8)] if big else [(3, 2), (2, 2), (4, 3), (4, 2)]
+
+    def counts(**kw):
+        return [kw.get("c%d" % c, 0) for c in range(k)]
+    groups, seen = [], [0] * k
+    conflicted = [0] + [p for p in range(1, k) if big and rng.random() < 0.6]
+    for p in conflicted:
+        a, b = rng.choice(mixes)
+        other = rng.choice([c for c in range(k) if c != p])
+        groups.append({"base": p, "tail": 0, "shift": 0.0, "counts": counts(**{"c%d" % p: a, "c%d" % other: b})})
+        nb = rng.choice([a + b, a, b + 1]) if big else rng.choice([2, 3])
+        groups.append({"base": p, "tail": rng.choice([2, 3, 3, 4, 5, m // 3]), "shift": rng.choice([1.5, -2.0, 0.75]),
+                       "counts": counts(**{"c%d" % other: nb})})
+        seen[p] += a
+        seen[other] += b + nb
+    for c in range(k):
+        if seen[c] < 2 or (c not in conflicted and rng.random() < 0.5):
+            cs = {"c%d" % c: rng.choice([3, 4, 6]) if big else 2}
+            if rng.random() < 0.4:
+                cs["c%d" % ((c + 1) % k)] = 2 if big else 1
+            groups.append({"base": c, "tail": 0, "shift": 0.0, "counts": counts(**cs)})
+    return groups
 
 
 def _ycont(y, how):
@@ -963,6 +1054,16 @@ def shrink(case):
     if c["kind"] in ("clf", "reg"):
         if c.get("prefit"):
             yield {k: v for k, v in c.items() if k != "prefit"}
+        if c.get("dup"):
+            gs = c["dup"]["groups"]
+            if c["dup"].get("jitter"):
+                yield dict(c, dup=dict(c["dup"], jitter=0.0))
+            for gi, g in enumerate(gs):
+                for cl, cnt in enumerate(g["counts"]):
+                    if cnt > 1 and c["sizes"][cl] > 2:
+                        g2 = dict(g, counts=g["counts"][:cl] + [cnt - 1] + g["counts"][cl + 1:])
+                        sz = c["sizes"][:cl] + [c["sizes"][cl] - 1] + c["sizes"][cl + 1:]
+                        yield dict(c, sizes=sz, dup=dict(c["dup"], groups=gs[:gi] + [g2] + gs[gi + 1:]))
         if c["n_test"] > 1:
             yield dict(c, n_test=c["n_test"] - 1)
             yield dict(c, n_test=1)
@@ -1141,6 +1242,8 @@ def distribution(cases, results):
                 d["cboss-ensembles-of-zero-accuracy-members-only"] += 1
             elif any((w or 0) < 1e-6 for w in ws):
                 d["cboss-ensembles-with-a-zero-accuracy-member"] += 1
+        if c.get("dup"):
+            d["duplicate-series-with-conflicting-labels:%s" % ("error" if "err" in o else "ran")] += 1
         if c.get("level"):
             d["level-scale-case:%s" % ("error" if "err" in o else "ran")] += 1
         if c.get("prefit"):
